@@ -157,9 +157,24 @@ impl TryFrom<&Value> for f64 {
                 Ok(f64::try_from(&Value::Text(s))?)
             }
             Value::Number(v) => Ok(*v),
-            Value::Text(v) => Ok(v.parse::<f64>().unwrap_or(f64::NAN)),
+            Value::Text(v) => Ok(number_from_str(v)),
         }
     }
+}
+
+/// The number a string denotes: optional white space, an optional minus sign and a `Number`
+/// (digits with an optional fraction, or a fraction alone), optional white space; anything else
+/// (an exponent, a plus sign, `Infinity`, `NaN`, ...) is NaN.
+fn number_from_str(value: &str) -> f64 {
+    let value = value.trim_matches(|c| c == ' ' || c == '\t' || c == '\r' || c == '\n');
+    let unsigned = value.strip_prefix('-').unwrap_or(value);
+    let (int, frac) = unsigned.split_once('.').unwrap_or((unsigned, ""));
+    let digits = |v: &str| v.chars().all(|c| c.is_ascii_digit());
+    if (int.is_empty() && frac.is_empty()) || !digits(int) || !digits(frac) {
+        return f64::NAN;
+    }
+
+    value.parse::<f64>().unwrap_or(f64::NAN)
 }
 
 impl cmp::PartialEq<bool> for Value {
